@@ -2487,11 +2487,24 @@ func (s *scanner) processScannedFiles(entryPointMeta []graph.EntryPoint) []scann
 						} else {
 							sb.WriteString(s.options.MetafileFormat.MaybeRemoveWhitespace(",\n        "))
 						}
-						sb.WriteString(fmt.Sprintf(
-							s.options.MetafileFormat.MaybeRemoveWhitespace("{\n          \"path\": %s,\n          \"kind\": %s,\n          \"external\": true%s\n        }"),
-							helpers.QuoteForJSON(record.Path.Text, s.options.ASCIIOnly),
-							helpers.QuoteForJSON(record.Kind.StringForMetafile(), s.options.ASCIIOnly),
-							metafileWith))
+						if record.SourceIndex.IsValid() {
+							// This is an import that was generated by esbuild itself instead of
+							// being resolved (e.g. the implicit import of an injected file). It
+							// refers to a file in the bundle, so it's not external and its path
+							// should be printed the same way as all other paths in the metafile.
+							otherFile := &s.results[record.SourceIndex.GetIndex()].file
+							sb.WriteString(fmt.Sprintf(
+								s.options.MetafileFormat.MaybeRemoveWhitespace("{\n          \"path\": %s,\n          \"kind\": %s%s\n        }"),
+								helpers.QuoteForJSON(otherFile.inputFile.Source.PrettyPaths.Select(s.options.MetafilePathStyle), s.options.ASCIIOnly),
+								helpers.QuoteForJSON(record.Kind.StringForMetafile(), s.options.ASCIIOnly),
+								metafileWith))
+						} else {
+							sb.WriteString(fmt.Sprintf(
+								s.options.MetafileFormat.MaybeRemoveWhitespace("{\n          \"path\": %s,\n          \"kind\": %s,\n          \"external\": true%s\n        }"),
+								helpers.QuoteForJSON(record.Path.Text, s.options.ASCIIOnly),
+								helpers.QuoteForJSON(record.Kind.StringForMetafile(), s.options.ASCIIOnly),
+								metafileWith))
+						}
 					}
 					continue
 				}
